@@ -288,6 +288,7 @@ fn gen_file(cst: &Cst<'_>, node_ref: NodeRef, items: &mut PrintItems) {
                     items.push_signal(Signal::ExpectNewLine);
                 }
                 gen_node(cst, child_node_ref, items);
+                line_start = false;
             }
         }
     }
